@@ -88,6 +88,10 @@ def run_panic(ctx, entries, floor_entries, floor_defs, rule="PANIC"):
         chain = prog.chain(parent, n)
         undischarged.append(s)
         ctx.ob(rule, key, False, f"{s.kind} construct reachable from an untrusted-input entry point: {s.detail} in {s.fn}", s.file, s.line, chain=chain)
+    unused = sorted(k for k, n_ in exc_left.items() if n_ == int(exc[k].get("count", 1)) and not exc[k].get("requires"))
+    ctx.extra["exceptions_unused"] = unused
+    for k in unused:
+        ctx.note(f"exception entry matched no site on this tree: {k}")
     ctx.extra["panic_sites_by_kind"] = dict(by_kind)
     ctx.extra["add_mul_overflow_sites_not_decided"] = n_addmul
     ctx.extra["reachable_local_functions"] = len(defs)
